@@ -3,7 +3,7 @@
    rp_build l = the sharder pool after AddNode of the nodes of l in that order;
    rp_is_block_sharder k pool hash key = Chain.IsBlockSharder(FromHash) with NumReplicators = k;
    rp_can_shard_with_replicators = Chain.CanShardBlockWithReplicators. *)
-From ZC Require Import Model.Replicate Proof.Replicate.
+From ZC Require Import Model.Replicate Proof.Replicate Gen.ScorerReads.
 From Coq Require Import Sorting.Permutation.
 Open Scope Z_scope.
 
@@ -105,3 +105,16 @@ Example C42_example :
   rp_is_block_sharder 5 (rp_build [a; b; c; d]) (Some [0]) 20 = Some false /\
   rp_is_block_sharder 1 (rp_build [a; b; c; d]) (Some []) 20 = None.
 Proof. vm_compute. repeat split; reflexivity. Qed.
+
+(* The model computes the replicator set from the sharder ids, the hash and N alone. The translator
+   scorerreads (go/ast over chaincore/node, regenerated every run) lists what node_pool_scorer.go
+   selects from a node: only the id bytes and SetIndex (irrelevant by C42_set_index_irrelevant) --
+   no per-process state (Status, LastActiveTime, Info, counters ...), so two processes holding the
+   same sharder set compute the same set. *)
+Module C42Reads.
+Import Coq.Strings.String.
+Example C42_scorer_reads_only_id_bytes_and_set_index :
+  rp_scorer_node_reads = ["SetIndex"%string; "idBytes"%string].
+Proof. reflexivity. Qed.
+End C42Reads.
+
